@@ -553,6 +553,70 @@ theorem per_part_calls (labels : List L) (n : Nat) (pol : Policy) (o : Output)
 example : oneCall ⟨.modelSpecs, true, true, false, some [0]⟩ = false ∧
     route current ⟨.modelSpecs, true, true, false, some [0]⟩ = .perPart (some [0]) := ⟨rfl, rfl⟩
 
+/-! ## The caller's set object when the call raises, and when it is handed to further calls -/
+
+/-- C06.6a  RAISE and IGNORE never put anything into the caller's set — for ALL inputs (nothing
+assumed about the evaluated factors), on every entry point, whether the call returns or raises
+(nulls under RAISE, a null constant, an unknown type, an encoding error …): after the call the set
+object holds exactly what it held before. -/
+theorem raise_and_ignore_leave_caller_set (labels : List L) (n : Nat) (pol : Policy)
+    (hpol : pol ≠ .drop) (o : Output) (parts : List (Part ρ)) (c : CallRec) :
+    setAfterCall current labels n pol o parts c = c.caller :=
+  setAfterCall_keeps labels n pol hpol o parts c
+
+/-- C06.6b  When a call returns, the set object holds what the call reports (`callerAfter`, the
+subject of `dropset_reported`) — every policy, every entry point, all inputs. -/
+theorem caller_set_after_success (labels : List L) (n : Nat) (pol : Policy) (o : Output)
+    (parts : List (Part ρ)) (c : CallRec) (r : CallOut L ρ)
+    (h : call current labels n pol o parts c = .ok r) :
+    setAfterCall current labels n pol o parts c = r.callerAfter :=
+  setAfterCall_of_ok labels n pol o parts c r h
+
+/-- C06.6c  When a DROP call fails (one materializer call; the null check of a later factor or the
+encoding raises), the set keeps the caller's rows and has gained only rows that `find_nulls`
+flagged in some evaluated factor. -/
+theorem drop_failure_adds_only_null_rows (labels : List L) (n : Nat) (o : Output)
+    (parts : List (Part ρ)) (c : CallRec) (s : DropSet) (h1 : oneCall c = true)
+    (hs : c.caller = some s) :
+    ∃ s', setAfterCall current labels n .drop o parts c = some s' ∧
+      (∀ i ∈ s, i ∈ s') ∧ (∀ i ∈ s', i ∈ s ∨ i ∈ allNulls parts) := by
+  refine ⟨gmmSetAfter current .drop parts s, ?_, ?_⟩
+  · unfold setAfterCall
+    simp only [hs, route_current, h1, if_true]
+  · exact evalFactorsSt_drop_bounds (parts.flatMap (·.factors)) s
+
+/-- C06.6d  One set object handed to several calls (any entry points, formulas, data): a call
+that does not have the DROP policy — RAISE (raising or not), IGNORE, or an invalid `na_action` —
+leaves the object as it found it, so the calls after it behave exactly as if it had not been made;
+and every call is, by construction of `runSetHistory`, the call given the content the object has
+at that moment. -/
+theorem shared_set_survives_non_drop_call (k : SetCall L ρ) (rest : List (SetCall L ρ))
+    (s : Option DropSet) (hk : parseNAAction k.na ≠ .ok .drop) :
+    runSetHistory current (k :: rest) s =
+      (callNA current k.labels k.n k.na k.out k.parts (k.withSet s), s) ::
+        runSetHistory current rest s := by
+  have hset : setAfterCallNA current k.labels k.n k.na k.out k.parts (k.withSet s) = s := by
+    unfold setAfterCallNA
+    cases hp : parseNAAction k.na with
+    | error e => rfl
+    | ok pol =>
+      have hpol : pol ≠ .drop := fun h => hk (by rw [hp, h])
+      exact setAfterCall_keeps k.labels k.n pol hpol k.out k.parts (k.withSet s)
+  simp only [runSetHistory, hset]
+
+example : parseNAAction (.text "raise") ≠ .ok .drop ∧ parseNAAction (.text "omit") ≠ .ok .drop ∧
+    parseNAAction (.member .ignore) ≠ .ok .drop := by decide
+
+/-- a raising call on a shared set, then a drop call on it: the second call sees the original set -/
+theorem current_shared_set_example :
+    runSetHistory current
+      [⟨[0, 1, 2], 3, .text "raise", .numpy, [⟨.pandas, false, [ser [0, 1, 2] [1]]⟩],
+        ⟨.sugar, false, false, true, none⟩⟩,
+       ⟨[0, 1, 2], 3, .member .drop, .numpy, [⟨.pandas, false, [ser [0, 1, 2] [2]]⟩],
+        ⟨.modelSpec, false, true, true, none⟩⟩] (some [0]) =
+    [(.error .nullsPresent, some [0]),
+     (.ok ⟨[⟨1, none, [[plain [1]]], .none⟩], some [0, 2]⟩, some [0, 2])] := by decide
+
 /-! ## Histories: several calls on ONE materializer object (`Model/NullsHistory.lean`)
 
 A materializer object keeps `factor_cache` / `encoded_cache` between calls; `get_model_matrix`
